@@ -326,6 +326,9 @@ func c07ReqData(q *c07Req) map[string]any {
 	if q.TTL != "" {
 		d["ttl"] = q.TTL
 	}
+	if q.Lease != "" {
+		d["lease"] = q.Lease
+	}
 	if q.NumUses != 0 {
 		d["num_uses"] = q.NumUses
 	}
@@ -791,6 +794,8 @@ func c07RandCase(rng *kit.Rand, w *c07World, n int) (c07ParentSpec, c07Req) {
 	}
 	if rng.Chance(1, 2) {
 		q.TTL = kit.Pick(rng, []string{"10m", "5h", "2000h"})
+	} else if rng.Chance(1, 6) {
+		q.Lease = kit.Pick(rng, []string{"5h", "2000h"})
 	}
 	if rng.Chance(1, 10) {
 		q.NumUses = 1 + rng.Intn(5)
@@ -829,7 +834,7 @@ func TestVerif_C07_Random(t *testing.T) {
 	r := kit.NewResult(t, "c07-random", seed, "seeded random cases; "+c07Rule0)
 	defer r.Write(t)
 	w := c07Boot(t)
-	n := kit.N(1800, 14000)
+	n := kit.N(1800, 40000)
 	for i := 0; i < n; i++ {
 		id := fmt.Sprintf("rand:%d:%d", shard, i)
 		if !kit.WantCase(id) {
@@ -960,6 +965,9 @@ func TestVerif_C07_Lattice(t *testing.T) {
 							do(capability, ep, m, hd, func(q *c07Req) {
 								q.Policies = requested[rk]
 								q.NoDefault = nd
+								if hd && (rk == "root" || rk == "root-upper" || ep == "role-allowroot") {
+									q.TTL = "5h" // otherwise the "no non-expiring root from an expiring parent" rule answers first
+								}
 							})
 						}
 					}
@@ -1041,7 +1049,7 @@ func TestVerif_C07_Login(t *testing.T) {
 		entPol["ent-b"] = append(entPol["ent-b"], c07Strs(resp.Data["policies"])...) // whatever the group write was allowed to keep
 	}
 
-	n := kit.N(1500, 9000)
+	n := kit.N(1500, 30000)
 	durs := []string{"", "", "10m", "90m", "5h", "30h", "2000h"}
 	for i := 0; i < n; i++ {
 		id := fmt.Sprintf("login:%d:%d", shard, i)
